@@ -61,7 +61,7 @@ class _CallableObserver(object):
 class World(object):
     """impl(datasource) -> rp(registry point) -> P(parser, maybe multi-output) -> C(combiner, optional Z) -> R(rule [C, Z]); Z leaf."""
 
-    def __init__(self, fault_of, vals, list_len, coe, rule_fault_ok=True):
+    def __init__(self, fault_of, vals, list_len, coe, rule_fault_ok=True, helper=False):
         # fault_of(name, index) is called lazily when the body runs;  vals: dict of input values
         w = self
         w.calls = []
@@ -77,14 +77,26 @@ class World(object):
         class S(SpecSet):
             rp = RegistryPoint(multi_output=bool(list_len))
 
+        w.H = None
+        if helper:
+            # a helper datasource the implementation only optionally depends on: whatever happens to it, the spec can still be supplied
+            def H(broker):
+                w.calls.append("H")
+                fail("H")
+                return vals["h"]
+            H.__symx_order__ = 0
+            w.H = plugins.datasource()(H)
+
         def impl(broker):
             w.calls.append("impl")
             fail("impl")
+            h = broker.get(w.H) if helper else None
+            extra = h * 7 if h is not None else 0
             if list_len:
-                return [vals["e%d" % i] for i in range(list_len)]
-            return vals["e0"]
+                return [vals["e%d" % i] + extra for i in range(list_len)]
+            return vals["e0"] + extra
         impl.__name__ = "rp"
-        impl = plugins.datasource()(impl)
+        impl = (plugins.datasource(optional=[w.H]) if helper else plugins.datasource())(impl)
 
         class I(S):
             rp = impl
@@ -133,17 +145,23 @@ class World(object):
         R.__symx_order__ = 5
         w.R = plugins.rule([w.C, w.Z])(R)
         w.names = {w.impl: "impl", w.rp: "rp", w.P: "P", w.C: "C", w.R: "R", w.Z: "Z", w.P2: "P2"}
+        if helper:
+            w.names[w.H] = "H"
 
 
 HARD = ("content", "command", "timeout", "crash")
 
 
-def reference(faults, vals, list_len, coe):
+def reference(faults, vals, list_len, coe, helper=False):
     """The statement's meaning: which components have which value, given the faults (independent of the implementation)."""
     out = {"Z": vals["z"]}
     f = lambda n, i=None: faults.get((n, i), "none")  # noqa
+    extra = 0
+    if helper and f("H") == "none":
+        out["H"] = vals["h"]
+        extra = vals["h"] * 7
     if f("impl") == "none":
-        v = [vals["e%d" % i] for i in range(list_len)] if list_len else vals["e0"]
+        v = [vals["e%d" % i] + extra for i in range(list_len)] if list_len else vals["e0"] + extra
         out["impl"] = v
         out["rp"] = v
         out["P2"] = [x + 5 for x in v] if list_len else v + 5
@@ -200,7 +218,7 @@ class FakeSignal(object):
         return getattr(_sig, name)
 
 
-def run_world(faults, vals, list_len, coe, store_skips, observer, obs_target, lazy_fault=None, driver="run", rotate=0, host=False):
+def run_world(faults, vals, list_len, coe, store_skips, observer, obs_target, lazy_fault=None, driver="run", rotate=0, host=False, helper=False):
     chosen = {}
 
     def fault_of(n, i):
@@ -209,7 +227,7 @@ def run_world(faults, vals, list_len, coe, store_skips, observer, obs_target, la
                 chosen[(n, i)] = lazy_fault(n, i)
             return chosen[(n, i)]
         return faults.get((n, i), "none")
-    w = World(fault_of, vals, list_len, coe)
+    w = World(fault_of, vals, list_len, coe, helper=helper)
     broker = dr.Broker()
     broker.store_skips = store_skips
     w.alarm_left = []
@@ -233,7 +251,7 @@ def run_world(faults, vals, list_len, coe, store_skips, observer, obs_target, la
         broker.add_observer(o)
     escaped = None
     try:
-        comps = [w.R, w.Z, w.C, w.P, w.P2, w.rp, w.impl]
+        comps = [w.R, w.Z, w.C, w.P, w.P2, w.rp, w.impl] + ([w.H] if helper else [])
         comps = comps[rotate:] + comps[:rotate]        # the order the targets are named in decides the key order of the graph
         if driver == "run":
             dr.run(comps, broker=broker)
@@ -292,15 +310,17 @@ def accounting(w, broker, escaped, store_skips):
 
 
 # ------------------------------------------------------------------ symbolic obligation
-def make_o1(max_list, full_cross=True):
+def make_o1(max_list, full_cross=True, helper=False):
     def o1(en):
         with REG:
             list_len = en.choice("list_len", max_list + 1)     # 0 = single output
             coe = en.flag("continue_on_error")
             store_skips = en.flag("store_skips")
-            observer = OBSERVERS[en.choice("observer", len(OBSERVERS))]
+            observer = OBSERVERS[en.choice("observer", len(OBSERVERS) if not helper else 1)]
             obs_target = ["impl", "rp", "P", "C", "R", "Z"][en.choice("obs_target", 6)] if observer != "none" else None
             vals = {"z": en.fresh_int("z")}
+            if helper:
+                vals["h"] = en.fresh_int("h")
             for i in range(max(1, list_len)):
                 vals["e%d" % i] = en.fresh_int("e%d" % i)
             driver = DRIVERS[en.choice("driver", len(DRIVERS))]
@@ -308,16 +328,23 @@ def make_o1(max_list, full_cross=True):
             if not full_cross and driver != "run" and observer != "none":
                 raise core.Abort()       # quick tier: the other drivers are explored without a failing observer
             rotate = en.choice("rotate", 7) if driver != "run" else 0
+            if helper:
+                rotate = [0, 3, 7][en.choice("rotate3", 3)] if driver != "run" else 0
+            # (with the helper the faults of the pipeline below the parser are not varied again: O1 does that)
+            pick = (lambda n, i: FAULTS[en.choice("fault_%s_%s" % (n, i), len(FAULTS))] if n in ("H", "impl", "P") else "none") if helper else \
+                (lambda n, i: FAULTS[en.choice("fault_%s_%s" % (n, i), len(FAULTS))])
             w, broker, escaped, chosen = run_world(None, vals, list_len, coe, store_skips, observer, obs_target,
-                                                   lazy_fault=lambda n, i: FAULTS[en.choice("fault_%s_%s" % (n, i), len(FAULTS))], driver=driver, rotate=rotate, host=host)
+                                                   lazy_fault=pick, driver=driver, rotate=rotate, host=host, helper=helper)
             case = lambda mv: {"faults": [[n, i, f] for (n, i), f in sorted(chosen.items(), key=repr)], "list_len": list_len,  # noqa
-                               "coe": coe, "store_skips": store_skips, "observer": observer, "obs_target": obs_target, "driver": driver, "rotate": rotate, "host": host,
+                               "coe": coe, "store_skips": store_skips, "observer": observer, "obs_target": obs_target, "driver": driver, "rotate": rotate, "host": host, "helper": helper,
                                "vals": dict((k_, mv.int(v_)) for k_, v_ in vals.items())}
             en.note_sample(case)
             bad = accounting(w, broker, escaped, store_skips)
             en.must_hold(not bad, "accounted", case, detail=bad)
-            ref = reference(chosen, vals, list_len, coe)
+            ref = reference(chosen, vals, list_len, coe, helper)
             comps = {"impl": w.impl, "rp": w.rp, "P": w.P, "C": w.C, "R": w.R, "Z": w.Z, "P2": w.P2}
+            if helper:
+                comps["H"] = w.H
             for name, comp in comps.items():
                 present = comp in broker
                 en.must_hold(present == (name in ref), "isolated", case,
@@ -348,19 +375,29 @@ def obligations(tier):
                                "failing observer": "%s on any one component" % OBSERVERS, "values": "unconstrained symbolic ints"},
                        stubs=["timeouts are injected as the TimeoutException the SIGALRM handler would raise", "with a HostContext in the broker (flag) the signal module of insights.core.plugins records alarm()/signal() instead of arming a real timer: no alarm may stay armed once its datasource has finished"],
                        outside=["real signal delivery", "BlacklistedSpec handling", "graphs other than the 7-component pipeline (C01/C04 vary the shape)"],
-                       encoded=enc, budget_s=900 if thorough else 120, replay="faults", check_sample=True)]
+                       encoded=enc, budget_s=900 if thorough else 120, replay="faults", check_sample=True),
+            Obligation("O2-optional-helper", make_o1(2 if thorough else 1, True, True), ["accounted", "isolated"],
+                       desc="the implementing datasource optionally depends on a helper datasource: whatever the helper does (its failure is recorded against it and, as the statement allows, against the spec built on it), "
+                            "the spec, its parsers, the combiner and the rule have exactly the values they have without the helper's contribution",
+                       bounds={"faults of helper / implementation / parser elements": FAULTS, "parser elements": "single output or list of <= %d" % (2 if thorough else 1),
+                               "continue_on_error": "both", "store_skips": "both", "driver": DRIVERS, "targets named in": "3 rotations", "values": "unconstrained symbolic ints"},
+                       stubs=["timeouts are injected as the TimeoutException the SIGALRM handler would raise"], outside=["failing observers (O1)"],
+                       encoded=enc, budget_s=600 if thorough else 120, replay="faults", check_sample=True)]
 
 
 # ------------------------------------------------------------------ native side
 def _native(case):
     faults = dict(((n, i), f) for n, i, f in case["faults"])
-    vals = {"z": 7, "e0": 11, "e1": 13, "e2": 17}
+    vals = {"z": 7, "e0": 11, "e1": 13, "e2": 17, "h": 19}
     vals.update(case.get("vals") or {})       # the input values of the counterexample (0, negative ... matter to truthiness slips)
     w, broker, escaped, _ = run_world(faults, vals, case["list_len"], case["coe"], case["store_skips"], case["observer"], case["obs_target"],
-                                      driver=case.get("driver", "run"), rotate=case.get("rotate", 0), host=case.get("host", False))
+                                      driver=case.get("driver", "run"), rotate=case.get("rotate", 0), host=case.get("host", False), helper=case.get("helper", False))
     bad = accounting(w, broker, escaped, case["store_skips"])
-    ref = reference(faults, vals, case["list_len"], case["coe"])
-    for name, comp in {"impl": w.impl, "rp": w.rp, "P": w.P, "C": w.C, "R": w.R, "Z": w.Z, "P2": w.P2}.items():
+    ref = reference(faults, vals, case["list_len"], case["coe"], case.get("helper", False))
+    comps = {"impl": w.impl, "rp": w.rp, "P": w.P, "C": w.C, "R": w.R, "Z": w.Z, "P2": w.P2}
+    if case.get("helper"):
+        comps["H"] = w.H
+    for name, comp in comps.items():
         present = comp in broker
         if present != (name in ref):
             bad.append("%s %s a value but should%s" % (name, "has" if present else "lacks", "" if name in ref else " not"))
@@ -379,6 +416,9 @@ def validate(tier):
         n += 1
     with REG:
         assert not _native({"faults": [["impl", None, "timeout"]], "list_len": 0, "coe": True, "store_skips": False, "observer": "none", "obs_target": None})
+        n += 1
+    with REG:
+        assert not _native({"faults": [["H", None, "content"]], "list_len": 1, "coe": True, "store_skips": True, "observer": "none", "obs_target": None, "helper": True})
         n += 1
     return n
 
